@@ -18,7 +18,9 @@ Template directives (all start with //@ at the beginning of a line):
        //@loop N                    following lines = invariant/decreases clauses for the N-th loop (0-based, textual order)
        //@after /REGEX/             following lines inserted after the (single) body line matching REGEX
        //@before /REGEX/            following lines inserted before the (single) body line matching REGEX
+       //@no-twin                   no vacuity twin (trait-impl methods cannot get one: the contract is on the trait)
        //@keep-panics               do not apply R12 in this block
+       //@keep-minmax               do not apply R11 in this block (receiver is not an integer)
   //@end
   /*@body*/                         marker placed just before the body '{' of a template-written fn that must get
                                     a vacuity twin (extracted fns always get one)
@@ -71,7 +73,7 @@ def rewrite_macro_calls(text, name, fn):
     return out, cnt
 
 
-def apply_global_rewrites(text, keep_panics=False):
+def apply_global_rewrites(text, keep_panics=False, keep_minmax=False):
     """Returns (new_text, {rule: count})."""
     counts = {}
 
@@ -114,7 +116,7 @@ def apply_global_rewrites(text, keep_panics=False):
         new, n = re.subn(r'(?:std|core)::mem::size_of::<' + ty + r'>\(\)', f'{w}usize', text)
         bump('R8 size_of constant', n); text = new
     # R11 integer max/min on simple receivers
-    for op in ('max', 'min'):
+    for op in (() if keep_minmax else ('max', 'min')):
         new, n = re.subn(r'((?:\b[\w]+(?:\.[\w]+)*)|\((?:[^()]|\([^()]*\))*\))\.' + op + r'\(', r'v' + op + r'(\1, ', text)
         bump(f'R11 a.{op}(b) -> v{op}(a, b)', n); text = new
     # R13 closure parameter `_` (rejected by Verus) gets a name
@@ -216,6 +218,7 @@ def process_block(kind, header, dirs, report):
     loops = {int(d[1]): d[2] for d in dirs if d[0] == 'loop'}
     hints = [(d[0], parse_rx(d[1]), d[2]) for d in dirs if d[0] in ('after', 'before')]
     keep_panics = any(d[0] == 'keep-panics' for d in dirs)
+    keep_minmax = any(d[0] == 'keep-minmax' for d in dirs)
     entry = {'kind': kind, 'file': file, 'rewrites': {}}
     if kind == 'fn':
         impl_rx, name = parts[1], parts[2]
@@ -254,9 +257,9 @@ def process_block(kind, header, dirs, report):
         entry['verbatim'] = body
         fname = None
     # rewrites on the body (and derived signature)
-    body, counts = apply_global_rewrites(body, keep_panics)
+    body, counts = apply_global_rewrites(body, keep_panics, keep_minmax)
     if kind == 'fn' and not sig:
-        use_sig, c2 = apply_global_rewrites(use_sig, keep_panics)
+        use_sig, c2 = apply_global_rewrites(use_sig, keep_panics, keep_minmax)
         for k, v in c2.items():
             counts[k] = counts.get(k, 0) + v
     for k, v in counts.items():
@@ -276,7 +279,8 @@ def process_block(kind, header, dirs, report):
     entry['loops'] = nloops
     entry['loops_with_contract'] = sorted(loops)
     if kind == 'fn':
-        text = use_sig.rstrip() + '\n' + contract.rstrip() + '\n/*@body*/ ' + body + '\n'
+        marker = '' if any(d[0] == 'no-twin' for d in dirs) else '/*@body*/ '
+        text = use_sig.rstrip() + '\n' + contract.rstrip() + '\n' + marker + body + '\n'
         entry['fn'] = fname
         entry['contract'] = contract
     else:
@@ -343,7 +347,7 @@ def generate(template_path):
                 d = re.match(r'//@([\w-]+)\s*(.*)$', l2)
                 if d:
                     key, arg = d.group(1), d.group(2)
-                    if key in ('sig', 'subst', 'keep-panics'):
+                    if key in ('sig', 'subst', 'keep-panics', 'keep-minmax', 'no-twin'):
                         dirs.append([key, arg]); cur = None
                     elif key in ('contract', 'loop', 'after', 'before'):
                         cur = [key, arg, '']
